@@ -92,14 +92,14 @@ theorem append_adds_its_lexeme (p : Prefs) (hp : WsPrefs p) (il : Nat) (o : O) (
 one space when the spacer is empty — the special case of `serialize.py:300-307`. (`Plain`: not a punctuation value
 and not ending in a space, unless that space is backslash-escaped — a name like `b\ ` is a word since the repair of
 the APPEND phase; `GenericTy`: a type without special treatment.) -/
-theorem words_are_separated (p : Prefs) (hs : allWs p.spacer = true) (il : Nat) (ty w1 w2 : CssVerif.Proto.Cps)
+theorem words_are_separated (p : Prefs) (hs : allCssWs p.spacer = true) (il : Nat) (ty w1 w2 : CssVerif.Proto.Cps)
     (ht : GenericTy ty = true) (h1 : Plain w1 = true) (h2 : Plain w2 = true) :
     value (runCalls p il [{ v := .str w1, ty := ty }, { v := .str w2, ty := ty }]) = w1 ++ gapOf p ++ w2 ∧
       gapOf p ≠ [] :=
   ⟨two_words_text p il ty ht w1 w2 h1 h2 hs, gapOf_ne_nil p⟩
 
 /-- the repaired case: `a` then `b\ ` (a name ending with an escaped space) keeps the gap: `a b\ `, not `ab\ ` -/
-example (p : Prefs) (hs : allWs p.spacer = true) :
+example (p : Prefs) (hs : allCssWs p.spacer = true) :
     value (runCalls p 1 [{ v := .str [97], ty := t_IDENT }, { v := .str [98, 92, 32], ty := t_IDENT }])
       = [97] ++ gapOf p ++ [98, 92, 32] :=
   (words_are_separated p hs 1 t_IDENT [97] [98, 92, 32] (by decide) (by decide) (by decide)).1
@@ -110,7 +110,7 @@ closed form is stated for a list that does not end in the single piece `/` and a
 (no other hypothesis on the record). -/
 theorem every_word_is_followed_by_the_gap (p : Prefs) (il : Nat) (ty : CssVerif.Proto.Cps) (ht : GenericTy ty = true)
     (hsp : p.spacer ≠ [47]) (ws : List CssVerif.Proto.Cps) (hw : ∀ w ∈ ws, Plain w = true) (o : O)
-    (ho : o.head? ≠ some [47]) :
+    (ho : lastPiece o ≠ some [47]) :
     runCalls p il (ws.map fun w => ({ v := .str w, ty := ty } : Call)) o
       = (ws.reverse.flatMap fun w => gapPieces p ++ [w]) ++ o :=
   runCalls_words p il ty ht hsp ws o hw ho
@@ -162,24 +162,19 @@ theorem no_adjacent_pair_fuses_default (a b : Call) (ha : a ∈ lexemes) (hb : b
   have := pairs_default ha hb
   simpa [pairOk] using this
 
-/-- … and under the layout strings of the MINIFIED preset (all spacers, indent and line separator empty) a pair fuses
-iff it is one of the four pairs of finding C06-op-equals-fusion (`*=`, `|=`, `^=`, `$=`): an exact characterisation. -/
-theorem adjacent_pairs_minified (a b : Call) (ha : a ∈ lexemes) (hb : b ∈ lexemes) :
-    (nonS (value (runCalls pMinLayout 1 [a, b]))
-        = nonS (value (runCalls pMinLayout 1 [a])) ++ nonS (value (runCalls pMinLayout 1 [b])))
-      ↔ knownFuse a b = false := by
-  have h := pairs_min ha hb
-  simp only [pairOk] at h
-  constructor
-  · intro e
-    have : (nonS (value (runCalls pMinLayout 1 [a, b]))
-        == nonS (value (runCalls pMinLayout 1 [a])) ++ nonS (value (runCalls pMinLayout 1 [b]))) = true := by
-      simpa using e
-    rw [this] at h
-    simpa using h.symm
-  · intro hk
-    rw [hk] at h
-    simpa using h
+/-- … and under the layout strings of the MINIFIED preset (all spacers, indent and line separator empty) no pair fuses
+either — full strength since the fix "Out.append keeps '*' '=' apart also when the spacer is empty" (before: every pair
+but the four of finding C06-op-equals-fusion, `*=`, `|=`, `^=`, `$=`). -/
+theorem no_adjacent_pair_fuses_minified (a b : Call) (ha : a ∈ lexemes) (hb : b ∈ lexemes) :
+    nonS (value (runCalls pMinLayout 1 [a, b]))
+      = nonS (value (runCalls pMinLayout 1 [a])) ++ nonS (value (runCalls pMinLayout 1 [b])) := by
+  have := pairs_min ha hb
+  simpa [pairOk] using this
+
+/-- the former witness: `*` then `=` under the minified layout is written `* =` -/
+example : lx5 ∈ lexemes ∧ formerFuse lx5 { v := .str [61], ty := t_CHAR } = true ∧
+    value (runCalls pMinLayout 1 [lx5, { v := .str [61], ty := t_CHAR }]) = [42, 32, 61] := by
+  refine ⟨by decide, by decide, by decide⟩
 
 /-- the lists are not empty: `/` and `*` are lexemes, and the pair is written `/ *` -/
 example : lx10 ∈ lexemes ∧ lx5 ∈ lexemes ∧ value (runCalls Prefs.default 1 [lx10, lx5]) = [47, 32, 42] := by
@@ -262,7 +257,7 @@ theorem defaultAtKeyword_is_the_keyword_rewrite (p : Prefs) (atk : CssVerif.Prot
 /-- `resolveVariables`, value level: a `var(x)` whose variable resolves to a non-empty text `v` that is a word
 (`Plain`: not a punctuation string, no trailing blank) is written as exactly `v`, under every record with a
 white-space spacer — the text of the variable's value stands where the `var()` stood -/
-theorem var_written_as_its_value (p : Prefs) (hr : p.resolveVariables = true) (hs : allWs p.spacer = true) (il : Nat)
+theorem var_written_as_its_value (p : Prefs) (hr : p.resolveVariables = true) (hs : allCssWs p.spacer = true) (il : Nat)
     (name v : CssVerif.Proto.Cps) (fb : EVal) (hn : name ≠ []) (hv : Plain v = true) :
     varText p il name (.obj v) fb = v :=
   varText_resolved p hr hs il name v fb hn hv
@@ -442,15 +437,15 @@ theorem finding_nth_plus_fusion :
         .mk [68] (.str [50, 110]), .mk t_plus (.str [43]), .mk [78] (.str [49]), .mk [102] (.str [41])])
       = [97, 58, 110, 116, 104, 45, 99, 104, 105, 108, 100, 40, 50, 110, 43, 49, 41] := rfl
 
-/-- **finding C06-op-equals-fusion**: the test of d39f9c4 looks at the last piece of the list; with an EMPTY spacer the
-piece after `*` is the empty spacer (the blank behind it is removed by `=`), so `*` + `=` fuse after all: `@x [a* =b];` is
-written `@x [a *=b];` under the minified layout strings, but `@x [a * =b];` under the default record. `~` is not
-affected (its blanks come from the `+>~` branch). -/
-theorem finding_op_equals_fusion_empty_spacer :
+/-- **(was finding C06-op-equals-fusion, repaired in 77b59e6)** the test of d39f9c4 looked at the last piece of the list;
+with an EMPTY spacer the piece after `*` is the empty spacer, so `*` + `=` fused after all. The test now looks at the
+last non-empty piece: `@x [a* =b];` is written `@x [a * =b];` under the minified layout strings as under the default
+record. -/
+theorem op_equals_kept_apart_empty_spacer :
     doRule pTight 0 0 (.unknown (.mk true [64, 120]
       [.str t_S [32], .str t_CHAR [91], .str t_IDENT [97], .str t_CHAR [42], .str t_S [32], .str t_CHAR [61],
        .str t_IDENT [98], .str t_CHAR [93], .str t_CHAR [59]]))
-      = .ok [64, 120, 32, 91, 97, 32, 42, 61, 98, 93, 59] ∧
+      = .ok [64, 120, 32, 91, 97, 32, 42, 32, 61, 98, 93, 59] ∧
     doRule Prefs.default 0 0 (.unknown (.mk true [64, 120]
       [.str t_S [32], .str t_CHAR [91], .str t_IDENT [97], .str t_CHAR [42], .str t_S [32], .str t_CHAR [61],
        .str t_IDENT [98], .str t_CHAR [93], .str t_CHAR [59]]))
@@ -474,7 +469,7 @@ example :
 NOTHING between them, under EVERY record that keeps comments and has a white-space spacer (`Plain`: a word — not a
 punctuation string, no unescaped trailing blank; `ty3` any generic type other than IDENT, the parser uses `pseudo`).
 Before the repair the text was `a /*c*/ :first`, which reparses as a page named `a` plus stray tokens. -/
-theorem page_name_comment_pseudo_unspaced (p : Prefs) (hk : p.keepComments = true) (hs : allWs p.spacer = true)
+theorem page_name_comment_pseudo_unspaced (p : Prefs) (hk : p.keepComments = true) (hs : allCssWs p.spacer = true)
     (il : Nat) (a c ps ty3 : CssVerif.Proto.Cps) (ha : Plain a = true) (hc : Plain c = true) (hps : Plain ps = true)
     (ht3 : GenericTy ty3 = true) (hni : (ty3 == t_IDENT) = false) :
     value (runCalls p il (pageSelCalls [(t_IDENT, .str a), (t_COMMENT, .obj c), (ty3, .str ps)])) = a ++ c ++ ps :=
